@@ -5,6 +5,7 @@ mod dirdrv;
 mod hookdb;
 mod labeldrv;
 mod refhash;
+mod stordrv;
 mod triedrv;
 mod wire;
 
@@ -15,6 +16,7 @@ fn main() {
         "dir" => dirdrv::main_dir(&args[2..]),
         "trie" => triedrv::main_trie(&args[2..]),
         "labels" => labeldrv::main_labels(&args[2..]),
+        "storage" => stordrv::main_storage(&args[2..]),
         other => {
             eprintln!("unknown subcommand {other:?}");
             std::process::exit(2);
